@@ -23,6 +23,7 @@ func init() {
 		ruleSlot(c, "C10.W6")
 		ruleR2(c, "C10.W7")
 		ruleF3(c, "C10.W8")
+		ruleRefused(c, "C10.W9")
 	}
 }
 
